@@ -15,3 +15,27 @@ Definition unique_ids (P : problem) : Prop := NoDup (map fst (p_actions P)).
 (* Boolean fluents hold Booleans (or nothing): preserved by every step of the documented semantics *)
 Definition bool_state (P : problem) (s : state) : Prop :=
   forall f args, is_bool_fluent P f = true -> bool_or_undef (s f args).
+
+(* ------------------------------------------------------------------ compilers that split actions into variants *)
+(* the compiled action table with the map back: (compiled action id, original action id, compiled action) *)
+Definition vtable := list (N * N * action).
+
+Definition vt_actions (t : vtable) : list (N * action) := map (fun x => (fst (fst x), snd x)) t.
+
+(* CompilerResult.map_back_action_instance on an action name: the original action the variant was made from *)
+Definition vt_back (t : vtable) (id' : N) : N :=
+  match find (fun x => (fst (fst x) =? id')%N) t with Some x => snd (fst x) | None => id' end.
+
+Definition vt_map_back (t : vtable) (pi' : list (N * list value)) : list (N * list value) :=
+  map (fun st => (vt_back t (fst st), snd st)) pi'.
+
+(* [rho] is obtained from [pi] (run from [s]) by deleting some steps that leave the state unchanged (C07's reading of
+   "maps back to the same sequence": variants without effects are documented to be discarded) *)
+Inductive sub_noop_eq (P : problem) : state -> list (N * list value) -> list (N * list value) -> Prop :=
+| sne_nil s : sub_noop_eq P s [] []
+| sne_keep s aid args a t pi rho :
+    lookup_action P aid = Some a -> spec_step false P s a args = Some t ->
+    sub_noop_eq P t pi rho -> sub_noop_eq P s ((aid, args) :: pi) ((aid, args) :: rho)
+| sne_drop s aid args a t pi rho :
+    lookup_action P aid = Some a -> spec_step false P s a args = Some t -> (forall f x, t f x = s f x) ->
+    sub_noop_eq P t pi rho -> sub_noop_eq P s ((aid, args) :: pi) rho.
